@@ -4,7 +4,7 @@ from vlib import Family
 from conc import Profile
 
 FULL = "STYRUVDABMHCO"
-ALLCFG = ("z:s", "b:a", "w:s", "w:a", "l:s", "l:a", "b:s", "z:a")
+ALLCFG = ("z:s", "b:a", "w:s", "w:a", "l:s", "l:a", "b:s", "z:a", "p:a", "q:s", "p:s", "q:a")   # p, q: payloads without drop glue
 QCFG = ("w:s", "l:a")
 
 COMMON_ASSUME = [
@@ -21,7 +21,7 @@ def fams_c18(tier, seed):
             Family("full3", "exh", FULL, "0,1,2,u", depth=3, configs=QCFG),
             Family("async5", "exh", "SyvABMc", "0,1", depth=5, configs=("l:a", "b:s")),
             Family("stream6", "exh", "Myvc", "0,1", depth=6, configs=("w:s",)),
-            Family("rand40", "rand", FULL + "w", "0,1,2,u", length=40, n=4000, configs=("w:a", "z:s", "l:s")),
+            Family("rand40", "rand", FULL + "w", "0,1,2,u", length=40, n=4000, configs=("w:a", "z:s", "l:s", "p:s")),
         ]
     return [
         Family("full3", "exh", FULL, "0,1,2,u", depth=3, configs=ALLCFG),
@@ -104,9 +104,9 @@ def fams_ledger(tier, seed):
     if tier == "quick":
         return [
             Family("full3", "exh", FULL, "0,1,2,u", depth=3, configs=("w:s", "l:a", "z:a", "b:s")),
-            Family("async5", "exh", "SyvABMc", "0,1", depth=5, configs=("l:a", "b:s")),
+            Family("async5", "exh", "SyvABMc", "0,1", depth=5, configs=("l:a", "b:s", "p:a")),
             Family("timed4", "exh", "TUyvAc", "0,1", depth=4, configs=("w:s", "l:a", "z:s")),
-            Family("pendingPQ5", "exh", "PQyvdc", "0,1", depth=5, configs=("z:s", "l:a", "b:a")),
+            Family("pendingPQ5", "exh", "PQyvdc", "0,1", depth=5, configs=("z:s", "l:a", "b:a", "q:a")),
             Family("rand40", "rand", FULL + "w", "0,1,2,u", length=40, n=3000, configs=("w:a", "z:s", "l:s", "b:a")),
         ]
     return fams_c18("thorough", seed)
@@ -215,7 +215,7 @@ def fams_c13(tier, seed):
     if tier == "quick":
         return [
             Family("timed5", "exh", "TUyvAc", "0,1", depth=5, configs=("w:s", "l:a")),
-            Family("timedP5", "exh", "PQTUv", "0,1", depth=5, configs=("b:s", "z:a")),
+            Family("timedP5", "exh", "PQTUv", "0,1", depth=5, configs=("b:s", "z:a", "p:s")),
             Family("rand-timed", "rand", "STYyRUvdABMhc", "0,1,2,u", length=40, n=3000, configs=("w:s", "l:a")),
         ]
     return [
@@ -229,7 +229,7 @@ def fams_c14(tier, seed):
     if tier == "quick":
         return [
             Family("try4", "exh", "YVDSRo", "0,1,2,u", depth=4, configs=("w:s", "l:a")),
-            Family("tryP5", "exh", "PQYVd", "0,1", depth=5, configs=("b:a", "z:s")),
+            Family("tryP5", "exh", "PQYVd", "0,1", depth=5, configs=("b:a", "z:s", "q:a")),
             Family("rand-try", "rand", "SYRVDABMhco", "0,1,2,u", length=40, n=3000, configs=("w:a", "l:s")),
         ]
     return [
@@ -242,9 +242,9 @@ def fams_c14(tier, seed):
 def fams_c15(tier, seed):
     if tier == "quick":
         return [
-            Family("futdrop5", "exh", "SyvABMc", "0,1", depth=5, configs=("l:a", "b:s", "z:s")),
-            Family("futdropPQ6", "exh", "PQyvdc", "0,1", depth=6, configs=("w:s", "l:a")),
-            Family("rand-futdrop", "rand", "SyvdABMhcPQ", "0,1,2,u", length=40, n=3000, configs=("w:a", "z:s", "l:s")),
+            Family("futdrop5", "exh", "SyvABMc", "0,1", depth=5, configs=("l:a", "b:s", "z:s", "p:a")),
+            Family("futdropPQ6", "exh", "PQyvdc", "0,1", depth=6, configs=("w:s", "l:a", "q:s")),
+            Family("rand-futdrop", "rand", "SyvdABMhcPQ", "0,1,2,u", length=40, n=3000, configs=("w:a", "z:s", "l:s", "p:a")),
         ]
     return [
         Family("futdrop6", "exh", "SyvABMc", "0,1,2", depth=6, configs=("l:a", "b:s", "z:s", "w:a")),
@@ -256,7 +256,7 @@ def fams_c15(tier, seed):
 def fams_c16(tier, seed):
     if tier == "quick":
         return [
-            Family("poll5", "exh", "ABwyv", "0,1", depth=5, configs=("w:a", "l:s")),
+            Family("poll5", "exh", "ABwyv", "0,1", depth=5, configs=("w:a", "l:s", "q:a")),
             Family("stream6", "exh", "Mwyvc", "0,1", depth=6, configs=("w:s", "b:a")),
             Family("rand-poll", "rand", "SyvABMwcPQ", "0,1,2,u", length=40, n=3000, configs=("w:a", "l:s")),
         ]
@@ -383,7 +383,8 @@ PROPS = {
         lean_targets=["Kanal.Props.C04", "Kanal.Tie"],
         props_files=["Kanal/Props/C04.lean", "Kanal/Tie.lean"],
         leancheck=["Kanal.Props.C04", "Kanal.PtrM"],
-        families=lambda tier, seed: ([Family("classes3", "exh", "SYRVDABo", "0,1", depth=3, configs=("z:s", "b:a", "w:s", "l:a"))] if tier == "quick" else
+        families=lambda tier, seed: ([Family("classes3", "exh", "SYRVDABo", "0,1", depth=3, configs=("z:s", "b:a", "w:s", "l:a", "p:a", "q:s")),
+                                      Family("classes-futdrop5", "exh", "PQyvd", "0,1", depth=5, configs=("p:a", "q:a", "b:s"))] if tier == "quick" else
                                      [Family("classes4", "exh", "SYRVDABo", "0,1,2", depth=4, configs=ALLCFG)]),
         conc=conc_prof("payload", MIXED, ["ptr", "stuck"], oracles=("ledger", "lifetime")),
         extra_checks=[integrity_check],
